@@ -152,8 +152,15 @@ def evalSelector (tbl : RuleTable) (sel : Bytes) (rootValue : JVal) (s : St) :
       let v ← newValueJson jsonFuel rootValue
       let rootCell ← newCell v
       modifySt fun st => { st with root := some rootCell, ruleRoot := some rootCell }
-      evalExpr Program.empty evalFuel expr
-    let back (s1 : St) : St := { s with heap := s1.heap, out := s1.out, faults := s1.faults }
+      let cell ← evalExpr Program.empty evalFuel expr
+      -- a cell of its own holding the selected value, as `$ = expr` would store it
+      let root ← newCell .unknown
+      match (← copyValue cell root) with
+      | .error m => throwRt expr.token.pos m
+      | .ok c => pure c
+    let back (s1 : St) : St :=
+      { s with heap := s1.heap, out := s1.out, faults := s1.faults, faultOut := s1.faultOut,
+               maxDepth := max s.maxDepth s1.maxDepth }
     match run s0 with
     | .ok c s1 => .inr (.ok c, back s1)
     | .err (.sig .exit) s1 => .inr (.error .exit, back s1)
